@@ -582,6 +582,8 @@ class Manager:
         # TODO: Refactor this method.
 
         if event.cancelled:
+            # will never be handled, but may be a tracked effect of its cause
+            self._effectsDone(event)
             return
 
         if event.complete:
@@ -693,6 +695,9 @@ class Manager:
             channels = getattr(event, 'success_channels', event.channels)
             self.fire(event.child('success', event, event.value.value), *channels)
 
+        self._effectsDone(event)
+
+    def _effectsDone(self, event):
         while True:
             # cause attributes indicates interest in completion event
             cause = getattr(event, 'cause', None)
@@ -702,7 +707,7 @@ class Manager:
             event.effects -= 1
             if event.effects > 0:
                 break  # some nested events remain to be completed
-            if event.complete:  # does this event want signaling?
+            if event.complete and not event.cancelled:  # does this event want signaling?
                 self.fire(
                     event.child('complete', event, event.value.value),
                     *getattr(event, 'complete_channels', event.channels),
